@@ -237,11 +237,21 @@ func (s *Syncer[H]) findTailHeight(ctx context.Context, oldTail, head H) (uint64
 		// estimate with head for higher accuracy
 		headersToStore := uint64(window / s.Params.blockTime) //nolint:gosec
 		estimatedTailHeight = head.Height() - headersToStore
+		if headersToStore >= head.Height()-oldTail.Height() {
+			// there are fewer headers than the window is expected to have,
+			// e.g. the chain was halted, so the estimation is off and must not go below the current tail
+			estimatedTailHeight = oldTail.Height() + 1
+		}
 	case tailTimeDiff < window:
 		// tails are close
 		// estimate with tail for higher accuracy
 		headersToStore := uint64(tailTimeDiff / s.Params.blockTime) //nolint:gosec
 		estimatedTailHeight = oldTail.Height() + headersToStore
+		if headersToStore >= head.Height()-oldTail.Height() {
+			// blocks were slower than the block time, e.g. the chain was halted,
+			// so the estimation is off and must not go beyond the head
+			estimatedTailHeight = head.Height()
+		}
 	}
 
 	log.Debugw(
